@@ -197,12 +197,27 @@ pub fn run_map(ctx: &Ctx, dir: &std::path::Path, c: &Case, m: &Mat, vcf: bool) -
         args.push("-f".into());
         args.push("vcf".into());
     }
+    // half of the cases write to a file with -o instead of stdout
+    let to_file = (c.k / 2 + m.samples.len() + c.ambig_mask as usize) % 2 == 1;
+    let out_name = if vcf { "map_out.vcf" } else { "map_out.aln" };
+    if to_file {
+        let _ = std::fs::remove_file(dir.join(out_name));
+        args.push("-o".into());
+        args.push(out_name.into());
+    }
     let argv: Vec<&str> = args.iter().map(|s| s.as_str()).collect();
     let o = run_ska(ctx, dir, &argv);
     if let Some(e) = o.infra() {
         return Err(Outcome::Infra(e));
     }
-    let stdout = o.out_str();
+    let stdout = if to_file && o.ok() {
+        if !o.stdout.is_empty() {
+            return Err(Outcome::Fail(format!("ska {} wrote {} bytes to stdout although -o was given", args.join(" "), o.stdout.len())));
+        }
+        std::fs::read_to_string(dir.join(out_name)).map_err(|e| Outcome::Fail(format!("ska {} succeeded but the -o file is missing: {e}", args.join(" "))))?
+    } else {
+        o.out_str()
+    };
     let aln = if vcf { vec![] } else { model::parse_fasta(&stdout) };
     Ok(MapRun {
         refused: !o.ok(),
